@@ -60,7 +60,10 @@ int ftruncate(int fd, off_t l) { REAL(int, ftruncate, int, off_t); if (f_gate("f
 ssize_t write(int fd, const void *b, size_t n) { REAL(ssize_t, write, int, const void *, size_t); if (fd > 2 && f_gate("write")) return -1; return real_write(fd, b, n); }
 int fclose(FILE *s) {
   REAL(int, fclose, FILE *);
-  if (!f_is_std(s) && f_gate("fclose")) { real_fclose(s); errno = f_fail_errno; return EOF; }   /* the descriptor is gone either way, as after a failed flush */
+  /* closing a stream opened read-only writes nothing and is not a failure point */
+  if (!f_is_std(s) && (fcntl(fileno(s), F_GETFL) & O_ACCMODE) != O_RDONLY && f_gate("fclose")) {
+    real_fclose(s); errno = f_fail_errno; return EOF;   /* the descriptor is gone either way, as after a failed flush */
+  }
   return real_fclose(s);
 }
 int fflush(FILE *s) { REAL(int, fflush, FILE *); if (s && !f_is_std(s) && f_gate("fflush")) { f_seterr(s); return EOF; } return real_fflush(s); }
